@@ -98,6 +98,10 @@ func getArrayPrototype() *Value {
 					}
 
 					for _, item := range this.Array {
+						if v[0].Tag == ValueUnknown || item.Value.Tag == ValueUnknown {
+							// == is never true for an unset value
+							continue
+						}
 						comp, err := v[0].Compare(&item.Value)
 						if err != nil {
 							return nil, err
